@@ -3,7 +3,9 @@ package c08
 
 import (
 	"crypto/sha256"
+	"encoding/base64"
 	"fmt"
+	"hash/crc32"
 	"os"
 	"path/filepath"
 	"strings"
@@ -95,5 +97,36 @@ func TestCompletionDoesNotRemoveADirectoryObjectOfTheSameName(t *testing.T) {
 	h := g.Head(g.RootC, "/bkt/dir/")
 	if c.Status/100 == 2 || h.Status != 200 {
 		t.Errorf("CompleteMultipartUpload for the key dir answered %d; the directory object dir/ now answers %d to HEAD", c.Status, h.Status)
+	}
+}
+
+// A completion that is refused for a wrong full-object checksum had already turned the current object into a version:
+// the refused request left a spurious non-current version behind.
+func TestRefusedCompletionLeavesNoVersion(t *testing.T) {
+	g := gwtest.Start(t, gwtest.Options{Versioning: true})
+	g.MustStatus(g.Put(g.RootC, "/vbkt", nil, nil), 200, "create bucket")
+	g.MustStatus(g.Put(g.RootC, "/vbkt?versioning", []byte(`<VersioningConfiguration><Status>Enabled</Status></VersioningConfiguration>`), nil), 200, "enable versioning")
+	g.MustStatus(g.Put(g.RootC, "/vbkt/obj", []byte("current content"), nil), 200, "put the current object")
+	versions := func() int {
+		l := g.Get(g.RootC, "/vbkt?versions", nil)
+		return strings.Count(string(l.Body), "<Version>")
+	}
+	before := versions()
+	r := g.Post(g.RootC, "/vbkt/obj?uploads", nil, map[string]string{"X-Amz-Checksum-Algorithm": "CRC32", "X-Amz-Checksum-Type": "FULL_OBJECT"})
+	g.MustStatus(r, 200, "initiate upload")
+	id := string(r.Body)
+	id = id[strings.Index(id, "<UploadId>")+len("<UploadId>") : strings.Index(id, "</UploadId>")]
+	part := []byte("part one")
+	sum := crc32.ChecksumIEEE(part)
+	b64 := base64.StdEncoding.EncodeToString([]byte{byte(sum >> 24), byte(sum >> 16), byte(sum >> 8), byte(sum)})
+	p := g.Put(g.RootC, "/vbkt/obj?partNumber=1&uploadId="+id, part, map[string]string{"X-Amz-Checksum-Crc32": b64})
+	g.MustStatus(p, 200, "upload part")
+	body := fmt.Sprintf(`<CompleteMultipartUpload><Part><PartNumber>1</PartNumber><ETag>%s</ETag><ChecksumCRC32>%s</ChecksumCRC32></Part></CompleteMultipartUpload>`, p.Header.Get("Etag"), b64)
+	c := g.Post(g.RootC, "/vbkt/obj?uploadId="+id, []byte(body), map[string]string{"X-Amz-Checksum-Crc32": "AAAAAA=="})
+	if c.Status/100 == 2 {
+		t.Fatalf("completion with a wrong full-object checksum was accepted: %s", c)
+	}
+	if after := versions(); after != before {
+		t.Errorf("the refused completion (%d) changed the number of versions of the key from %d to %d", c.Status, before, after)
 	}
 }
